@@ -370,3 +370,39 @@ func objectLiteralVia(env *environment.Environment, e *ast.Literal) ast.Expr {
 	}
 	return es.Expression
 }
+
+// VH_printShared (C15): a value that holds the same array or object twice (not inside
+// itself) shows it twice.
+func VH_printShared(which int) {
+	in := NewInterpreter()
+	env := environment.NewEnvironmentWithParent(in.globals)
+	utils.HadError, utils.HadRuntimeError = false, false
+	inner, _ := in.eval(&ast.ArrayLiteral{Elements: []ast.Expr{lit(1.0, 1), lit(2.0, 1)}, Line: 1}, env, false)
+	obj, _ := in.eval(objectLiteralVia(env, lit(5.0, 1)), env, false)
+	env.Define("r", inner)
+	env.Define("o", obj)
+	var node ast.Expr
+	var part string
+	switch which {
+	case 0: // [r, r]
+		node = &ast.ArrayLiteral{Elements: []ast.Expr{ident("r", 2), ident("r", 2)}, Line: 2}
+		part = "1 2"
+	case 1: // [o, o]
+		node = &ast.ArrayLiteral{Elements: []ast.Expr{ident("o", 2), ident("o", 2)}, Line: 2}
+		part = "k0:5"
+	default: // [[o], o, [r, o]]
+		node = &ast.ArrayLiteral{Elements: []ast.Expr{&ast.ArrayLiteral{Elements: []ast.Expr{ident("o", 2)}, Line: 2}, ident("o", 2), &ast.ArrayLiteral{Elements: []ast.Expr{ident("r", 2), ident("o", 2)}, Line: 2}}, Line: 2}
+		part = "k0:5"
+	}
+	verifClearEvents()
+	in.eval(&ast.PrintStatement{Expression: node}, env, false)
+	verifAssert("shared-print-one-line", hvCountStdout() == 1 && hvCountStderr() == 0)
+	if hvCountStdout() == 1 {
+		text := verifEventText(0)
+		if which == 2 {
+			verifAssert("printed-value-shows-a-shared-part-every-time", verifTextContainsInOrder(text, part, part, "1 2", part))
+		} else {
+			verifAssert("printed-value-shows-a-shared-part-every-time", verifTextContainsInOrder(text, part, part))
+		}
+	}
+}
